@@ -86,16 +86,18 @@ where
         // To output the compiled automata as dot files uncomment the following two lines
         // const TARGET_FOLDER: &str = concat!(env!("CARGO_MANIFEST_DIR"), "/../../target");
         // let _ = scanner.generate_compiled_automata_as_dot("Parol", Path::new(TARGET_FOLDER));
+        // issue #54 "Lookahead exceeds token buffer length" with simple grammar:
+        // Ensure that k is at least 1 and at most MAX_K
+        // The token iterator needs the same k, it provides k end of input tokens located at the
+        // end of the input. Without them unmatched text at the end of the input goes unnoticed.
+        let k = std::cmp::max(1, k);
+
         let token_iter = TokenIter::new(
             ScannerImpl::find_matches_with_position(scanner_impl, input, 0, match_function),
             input,
             file_name.clone(),
             k,
         );
-
-        // issue #54 "Lookahead exceeds token buffer length" with simple grammar:
-        // Ensure that k is at least 1 and at most MAX_K
-        let k = std::cmp::max(1, k);
 
         let mut token_stream = Self {
             k,
